@@ -33,7 +33,6 @@ ASSUMPTIONS = [
     "events have the shape EventManager._process_event produces for the side's id style (path-style: oid == path, renames carry prior_oid)",
     "preconditions mirror the code's own asserts and callers (a path is only assigned to a side that has an oid; split needs a local oid; a change flag is only raised on a side that has an oid)",
     "upstream SyncState.assert_index_is_correct() is NOT used as an oracle: it demands pending membership for a change flag without an id, which the statement excludes",
-    "ABANDON_WITH_COPY: events that take the 'prior entry re-used, other side copied over' branch of SyncState.update are not generated (open finding KF-35: the abandoned entry stays pending without any id)",
     "DIR_UNDER_OWN_OLD_PATH: a folder entry's path is never set to a path below its own previous path (open finding KF-16: unbounded recursion in _update_kids)",
 ]
 IDS = ("a1", "a2", "a3", "a4")
@@ -148,14 +147,14 @@ def run(trace):
     for p_ in provs:
         p_.connect({"key": "val"})
     state = SyncState(provs, DictStorage(), tag="T")
-    flags = {"reuse": False, "splitmerge": False}
+    flags = {"reuse": False, "splitmerge": False, "abandon_with_copy": False}
     seen_oid = [set(), set()]
     seen_path = [set(), set()]
     hazard_skips = 0
     import os
     off = set(trace["cfg"].get("hazards_off", []))
     if os.environ.get("VERIF_FHAZARDS") is not None:          # triage only; ./check unsets it
-        off = {"KF-16", "KF-35"} - {h for h in os.environ["VERIF_FHAZARDS"].split(",") if h}
+        off = {"KF-16"} - {h for h in os.environ["VERIF_FHAZARDS"].split(",") if h}
     for i, a in enumerate(trace["acts"]):
         k = a[0]
         ents = _entries(state)
@@ -166,9 +165,8 @@ def run(trace):
                 if "KF-16" not in off and _dir_under_own_old_path(state, side, ent0, path, prior):
                     hazard_skips += 1
                     continue
-                if "KF-35" not in off and _abandon_with_copy(state, side, oid, prior):
-                    hazard_skips += 1
-                    continue
+                if _abandon_with_copy(state, side, oid, prior):
+                    flags["abandon_with_copy"] = True
                 if oid in seen_oid[side] or (path and path in seen_path[side]):
                     flags["reuse"] = True
                 seen_oid[side].add(oid)
@@ -250,9 +248,8 @@ def run(trace):
 
 
 def _abandon_with_copy(state, side, oid, prior_oid):
-    """hazard ABANDON_WITH_COPY (KF-35): the branch of SyncState.update that re-uses the prior entry and moves the
-    other side's state over from the entry found under the new oid; the abandoned donor stays in the pending set
-    although it no longer has any id."""
+    """classifier (was hazard ABANDON_WITH_COPY until KF-35 was repaired): the branch of SyncState.update that re-uses
+    the prior entry and moves the other side's state over from the entry found under the new oid."""
     if not prior_oid or prior_oid == oid:
         return False
     ent = state.lookup_oid(side, oid)
